@@ -966,7 +966,7 @@ impl<'a> Gen<'a> {
         alpha.extend_from_slice(others);
         let a = *r.pick(&alpha);
         let b = *r.pick(&alpha);
-        let body = match r.below(12) {
+        let body = match r.below(13) {
             0..=3 => tok(a, b),
             4 => tok(p.addr, b),
             5 => sreq(a & 127, b & 127),
@@ -974,6 +974,7 @@ impl<'a> Gen<'a> {
             7 => srsp(a & 127, b & 127, r.byte()),
             8 => hex(&[0xE5]),
             9 => data_frame(a & 127, b & 127, FunctionCode::Response { state: ResponseState::Slave, status: ResponseStatus::DataLow }, &r.bytes(3), None, None),
+            12 => data_frame(a & 127, b & 127, req_of_kind(*r.pick(&['R', 'N', 'A', 'H'])), &r.bytes(2), None, None),
             10 => {
                 // garbage / truncated
                 let n = r.range(1, 7) as usize;
